@@ -49,7 +49,7 @@ var Check = &mc.Check{
 	Assumptions: []string{
 		"default BindConfig (LooseZeroMode=false, sonic JSON), content types application/json, application/x-www-form-urlencoded, multipart/form-data",
 		"all sources use the same key per field; keys differ from Go field names so that untagged JSON name matching cannot fill a field; header keys are in canonical form (Aa)",
-		"form and JSON body cannot be present in the same request (one body); path parameters are never empty (the router cannot produce one)",
+		"form and JSON body cannot be present in the same request (one body); a path parameter may be present and empty (a catch-all parameter on a path that ends at the slash)",
 		"scalar and pointer fields receive one value per source; slice fields receive one (path, cookie) or two (form, query, header, json) values",
 		"[]uint8 is excluded (JSON represents it as base64)",
 		"accepted as undetermined by the property (either result passes): slice field with form tag when only the query carries the key; empty value + declared default on a slice field; required + declared default + no value (error or default); invalid JSON value for a json-tagged field when a higher-priority source wins (error or winner); empty JSON string + declared default",
@@ -882,7 +882,7 @@ func classAllowed(k *kindInfo, s, cls int) bool {
 	switch cls {
 	case 1:
 		if s == srcPath {
-			return false // a path parameter is never empty
+			return true // "/files/" on the route "/files/*rest": the catch-all parameter is present and empty
 		}
 		if s == srcJSON {
 			return b.cat == catString && k.shape != shSlice
